@@ -2,6 +2,7 @@
 C04 — following a file delivers every appended line once, in order.
 -/
 import DtailModel.Lemmas.Tail
+import DtailModel.Lemmas.GenStats
 namespace Dtail.C04
 open Dtail
 
@@ -156,5 +157,32 @@ theorem C04_perc_after_drop_partial (s : Stats) (h : StatsInv s) (mt full : Bool
   rw [hperc]
   exact C04_gap_below_100 _ hinvD ((s.pos + 1) % ringSize)
     ⟨by rw [hgD.1]; exact hgapB.1, by rw [hgD.2]; exact hgapB.2⟩
+
+/-- **Tie G: the statistics code translated from the working tree refines the model.**
+    `Generated/Code.lean` holds `stats.updatePosition`, the four `updateLine…` methods and
+    `readFile.transmittable` as /verif/extract translated them, statement by statement, from
+    internal/io/fs/stats.go and readfile.go on this run.  For every translated ring whose integers
+    are non-negative and whose counters count its flags, for every regex answer and queue state:
+    `updatePosition` is the model's `updatePosition`, and `transmittable` is the rest of the model's
+    `processLine` — same ring, same fate (delivered / not), and a delivered line carries the model's
+    line count and percentage.  The theorems above therefore speak about the code as it is now. -/
+theorem C04_generated_code_refines_model (ext : Go.Ext) (g : Gen.Fs.readFile) (raw : Go.GoString) (len cap : Int)
+    (re : Go.GoRegex) (hn : GenStats.NonNeg g.stats) (hc : GenStats.Counted g.stats)
+    (hperc : ∀ m t : Int, 0 ≤ m → 0 ≤ t → ext.percentOf m t = (percentOf m.toNat t.toNat : Int)) :
+    GenStats.abs (Gen.Fs.stats.updatePosition ext g.stats) = updatePosition (GenStats.abs g.stats) ∧
+    GenStats.NonNeg (Gen.Fs.stats.updatePosition ext g.stats) ∧
+    (let r := Gen.Fs.readFile.transmittable ext g raw len cap re
+     let a := GenStats.afterPos g.canSkipLines (GenStats.abs g.stats) (ext.reMatch re raw) (decide (len ≥ cap))
+     GenStats.abs r.1.stats = a.1 ∧ (r.2.2 = true ↔ a.2.1 = .delivered) ∧
+     (r.2.2 = true → r.2.1 = Go.GoLine.new raw a.2.2.1 a.2.2.2 g.globID) ∧ (r.2.2 = false → r.2.1 = .null)) ∧
+    (∀ s m q, processLine g.canSkipLines s m q = GenStats.afterPos g.canSkipLines (updatePosition s) m q) := by
+  have h1 := GenStats.updatePosition_refines ext g.stats hn
+  have h2 := GenStats.transmittable_refines ext g raw len cap re hn hc hperc
+  exact ⟨h1.1, h1.2, ⟨h2.1, h2.2.2.2.2.1, h2.2.2.2.2.2.1, h2.2.2.2.2.2.2⟩, fun s m q => GenStats.processLine_eq_afterPos _ s m q⟩
+
+/-- non-vacuity: the zero value of the translated ring is the model's initial ring and meets the hypotheses -/
+example : GenStats.abs ({} : Gen.Fs.stats) = statsInit ∧ GenStats.NonNeg ({} : Gen.Fs.stats) ∧ GenStats.Counted ({} : Gen.Fs.stats) := by
+  refine ⟨GenStats.zero_abs.1, GenStats.zero_abs.2, ?_⟩
+  simp [GenStats.Counted, Go.GoZero.zero, countTrue]
 
 end Dtail.C04
